@@ -596,6 +596,17 @@ example :
     snakeDepth 0 130 = 1 := by
   refine ⟨by decide +kernel, by decide +kernel, by decide +kernel, by decide +kernel, by decide⟩
 
+/-- `preload_ref(offset)` for EVERY offset (the regenerated method; the hand model `SOp.preloadRef` only has offset 0): it returns
+the reference `offset` places after the next unread one, raises (IndexError) when there is none, and changes nothing. -/
+theorem c06_src_preload_ref_offset (k : Nat) (s : Py.SliceSt R) :
+    Generated.SliceOps.preload_ref k s = (s, (Proofs.SrcSlice.view s).refs[k]?) := by
+  unfold Generated.SliceOps.preload_ref Py.bindO Proofs.SrcSlice.view
+  simp only [List.getElem?_drop]
+  cases s.refs[s.ref_offset + k]? <;> rfl
+
+example : (Generated.SliceOps.preload_ref 1 (⟨[], [7, 8, 9], 1⟩ : Py.SliceSt Nat)).2 = some 9 ∧
+    (Generated.SliceOps.preload_ref 2 (⟨[], [7, 8, 9], 1⟩ : Py.SliceSt Nat)).2 = none := by decide
+
 end SrcSnake
 
 /-- the depth closed form at the boundaries (empty first builder: room for 127 bytes; 1016 bits prefilled: room for
